@@ -307,7 +307,7 @@ fn read_expected(path: &std::path::Path) -> Option<Kv> {
 }
 
 fn small_models(ctx: &Ctx) -> Vec<Case> {
-    let mut v = crate::checks::c07::small_cases(ctx, ctx.tier.pick(2400, 40_000));
+    let mut v = crate::checks::c07::small_cases(ctx, ctx.tier.pick(8000, 40_000));
     v.push(Case { kv: vec![], set: true, family: "special", index: 0 });
     v.push(Case { kv: vec![(vec![], 0)], set: true, family: "special", index: 1 });
     v.push(Case { kv: vec![(vec![], 5)], set: false, family: "special", index: 2 });
@@ -417,7 +417,7 @@ pub fn run(ctx: &Ctx) -> i32 {
         ev,
         Spec {
             level: "exploration",
-            rule: "one evaluation = one file opened in one container and put through the query battery (len/is_empty, full stream, verify() = Ok for v3 / ChecksumMissing for v1-2, lookups of keys/prefixes/extensions and every single byte from the root, 4 random ranges, Subsequence and DFA searches) against the model the file encodes; files: ~2400 (thorough 40000) models x versions {1,2,3} x 2 output distributions and node-form policies produced by the harness' independent reference encoder (self-checked by the independent decoder; includes empty map, only-empty-key, files of 32..35 bytes, nodes with >32 transitions with and without index), cross-version union/intersection/difference together with the crate's own output, 40 committed golden files (v1/v2/v3 reference encodings and v3 crate output with sidecar content), corpora in all versions; containers rotate over Vec, &[u8], Cow::Borrowed/Owned, Box<[u8]>, Arc newtype, memory map, map_data, Map/Set wrappers; plus a header sweep: version field in {0,1,2,3,4,5,255,2^32,u64::MAX} x lengths 0..44 x 3 fillings with the required error class (Version{expected:3,got}, Format{size}); non-trivial = every evaluation; distinct = by construction / fingerprint",
+            rule: "one evaluation = one file opened in one container and put through the query battery (len/is_empty, full stream, verify() = Ok for v3 / ChecksumMissing for v1-2, lookups of keys/prefixes/extensions and every single byte from the root, 4 random ranges, Subsequence and DFA searches) against the model the file encodes; files: ~8000 (thorough 40000) models x versions {1,2,3} x 2 output distributions and node-form policies produced by the harness' independent reference encoder (self-checked by the independent decoder; includes empty map, only-empty-key, files of 32..35 bytes, nodes with >32 transitions with and without index), cross-version union/intersection/difference together with the crate's own output, 40 committed golden files (v1/v2/v3 reference encodings and v3 crate output with sidecar content), corpora in all versions; containers rotate over Vec, &[u8], Cow::Borrowed/Owned, Box<[u8]>, Arc newtype, memory map, map_data, Map/Set wrappers; plus a header sweep: version field in {0,1,2,3,4,5,255,2^32,u64::MAX} x lengths 0..44 x 3 fillings with the required error class (Version{expected:3,got}, Format{size}); non-trivial = every evaluation; distinct = by construction / fingerprint",
             assumptions: vec!["inputs that are both of unsupported version and shorter than any well-formed file may report either Format or Version".into(), "reference encoder output is validated by the reference decoder before use; a disagreement aborts the run as a harness error".into()],
             floors: vec![
                 ("files:version-1", 1000),
